@@ -235,7 +235,10 @@ func probes(r *mon.Rand, routes []string, n int) []string {
 	return out
 }
 
-type opts struct{ tsr, fixed, m405 bool }
+type opts struct {
+	tsr, fixed, m405 bool
+	nmw              int
+}
 
 type hitRec struct {
 	idx    int
@@ -254,6 +257,12 @@ func build(routes []string, methods []string, order []int, o opts, hit *hitRec) 
 		c.HandleMethodNotAllowed = o.m405
 	})
 	e = route.NewEngine(opt)
+	// pass-through middleware attached one Use call at a time (0..6 of them): the handler
+	// chain of a route is its group's middleware plus its own handlers, and the route
+	// chosen must be the one whose own handler runs
+	for k := 0; k < o.nmw; k++ {
+		e.Use(func(c context.Context, ctx *app.RequestContext) { ctx.Next(c) })
+	}
 	for _, i := range order {
 		i := i
 		m := methods[i]
@@ -290,7 +299,7 @@ func checkSet(w *mon.W, c *mon.Case, routes []string, exhaustiveFamily bool) {
 			methods[i] = "POST"
 		}
 	}
-	o := opts{tsr: r.Bool(), fixed: r.Chance(3), m405: r.Bool()}
+	o := opts{tsr: r.Bool(), fixed: r.Chance(3), m405: r.Bool(), nmw: r.Intn(7)}
 	var orders [][]int
 	if nr <= 4 {
 		orders = permutations(nr)
